@@ -65,6 +65,7 @@ type H[T any] struct {
 	classND    func(s string, outs []string) string     // class of a nondeterminism
 	corpusStr  []string
 	corpusVal  []T
+	variants   func(r *hx.Rand) string // duplicated keys in different spellings (variants.go)
 }
 
 func (h *H[T]) outcome(s string) (line string) {
@@ -139,6 +140,9 @@ func (h *H[T]) checkString(ctx *hx.Ctx, s string, reps int, origin string) []str
 	}
 	if len(outs) > 1 {
 		cl := h.name + "-unmarshal-nondeterministic"
+		if caseVariantDup(s) {
+			cl = h.name + "-case-variant-map-order"
+		}
 		if h.classND != nil {
 			if c := h.classND(s, outs); c != "" {
 				cl = c
@@ -301,6 +305,15 @@ func runHeader[T any](ctx *hx.Ctx, h *H[T], nVals, nStrs int) {
 	}
 	for _, v := range h.corpusVal {
 		h.checkValue(ctx, v, 50, "corpus")
+	}
+	if h.variants != nil {
+		for i := 0; i < nStrs/8+40; i++ {
+			s := h.variants(ctx.Rng)
+			if ctx.Rng.Intn(12) == 0 {
+				s = mutate(ctx.Rng, s)
+			}
+			h.checkString(ctx, s, variantReps, "key-variants")
+		}
 	}
 	var pool []string
 	for i := 0; i < nVals; i++ {
